@@ -110,6 +110,7 @@ Section Obs.
     destruct (negb _); [intros H; injection H as _ <- <-; apply traced_nil|].
     destruct (is_avc_key_seq_header m); [intros H; injection H as _ <- <-; apply traced_nil|].
     destruct (is_hevc_key_seq_header m); [destruct (is_ext_header m); intros H; injection H as _ <- <-; apply traced_nil|].
+    destruct (enhanced_too_short m); [intros H; injection H as _ <- <-; apply traced_nil|].
     destruct (iterate_nalu_avcc _) as [nals [e|]]; [intros H; injection H as _ <- <-; apply traced_nil|].
     destruct (video_loop _ _ _ _ _ _ _ _ _) as [cache [[|b out]|]]; try (intros H; injection H as _ <- <-; apply traced_nil).
     set (s0 := set_spspps s cache).
